@@ -241,6 +241,7 @@ def same_outputs(case, io, mo):
 class Check(Property):
     ID = "C11"
     PROPS_FILE = "PintModel/Props/C11.lean"
+    EXTRA_LEAN_FILES = ["PintModel/Proofs/BfsLemmas.lean"]
     MODULE = "PintModel.Props.C11"
     RULE = ("scenarios: 1-3 generated contexts (monomial rules between 3-5 base dimensions, overlapping rules, "
             "parameters with defaults, aliases, unit redefinitions) with a random sequence of enable/disable, "
